@@ -22,6 +22,9 @@ type LiveCase struct {
 	// keep-alive / media packet after PLAY/RECORD (below the timeout)
 	PreludeMs    int `json:"prelude_ms,omitempty"`
 	FirstDelayMs int `json:"first_delay_ms,omitempty"`
+	// TimeoutMs: the server's read / idle timeouts (0 = 2000). The UDP path keeps whole seconds, so its effective timeout
+	// is up to one second shorter: FirstDelayMs and EveryMs have to stay below TimeoutMs - 1000.
+	TimeoutMs int `json:"timeout_ms,omitempty"`
 	Keep    string `json:"keepalive,omitempty"` // GET_PARAMETER or OPTIONS
 }
 
@@ -32,7 +35,7 @@ type liveStats struct {
 }
 
 const (
-	c02LiveTimeout = 2 * time.Second
+	c02LiveDefault = 2 * time.Second
 	c02PortBase    = 61950
 )
 
@@ -56,6 +59,10 @@ func (c LiveCase) expectedAlive() bool {
 
 func runLive(c LiveCase) (*liveStats, error) {
 	st := &liveStats{ExpectedAlive: c.expectedAlive()}
+	c02LiveTimeout := c02LiveDefault
+	if c.TimeoutMs > 0 {
+		c02LiveTimeout = time.Duration(c.TimeoutMs) * time.Millisecond
+	}
 	desc := SimpleDesc([]int{1, 1})
 	w, err := StartWorld(WorldCfg{UDP: true, Desc: desc, ReadTimeout: c02LiveTimeout, WriteTimeout: c02LiveTimeout, IdleTimeout: c02LiveTimeout})
 	if err != nil {
